@@ -10,6 +10,12 @@ FALSY = [
     {"nodes": [{"k": "wfc", "polls": 3, "init": True, "states": [False, 0.0, True]}]},
     {"nodes": [{"k": "child", "body": [{"k": "wfc", "polls": 3, "init": 1, "states": [0, 0, 5]}]}, {"k": "step"}]},
 ]
+# states from the default serializer's richer domain: an aware datetime with a non-zero offset, a dict with a tuple / bytes / UUID /
+# date inside, a Decimal, a tuple: "exactly the state the previous poll returned" includes offset, types and nesting
+RICH = [
+    {"nodes": [{"k": "wfc", "polls": 4, "init": {"pool": 5}, "states": [{"pool": 5}, {"pool": 6}, {"pool": 4}, {"pool": 2}]}, {"k": "step"}]},
+    {"nodes": [{"k": "child", "body": [{"k": "wfc", "polls": 3, "states": [{"pool": 6}, {"pool": 5}, {"pool": 5}]}]}, {"k": "wait"}]},
+]
 # check functions that take time: the (asynchronous) START is sent, or still in flight, while the poll runs
 # wait strategies that build the decision themselves (not through the factory) and ask for a zero / sub-second delay
 RAW = [
@@ -26,7 +32,7 @@ SLOW = [
 
 def run(ctx):
     run_durable(ctx, model=["s03_child_wfc", "s12_wfc_three_polls", "s17_child_wfc_inside", "s05_wfcb_childfail_wfcfail"],
-                programs=["s03_child_wfc", "s12_wfc_three_polls", "s17_child_wfc_inside", "s05_wfcb_childfail_wfcfail"] + FALSY + SLOW + RAW,
+                programs=["s03_child_wfc", "s12_wfc_three_polls", "s17_child_wfc_inside", "s05_wfcb_childfail_wfcfail"] + FALSY + SLOW + RAW + RICH,
                 oracle_fns=[oracles.c13, oracles.c03],
                 gen_kw={"kinds": ["wfc", "wfc", "step", "wait", "child"]},
                 scen_kw={"crash": 0.6, "paging": 0.3},
@@ -40,6 +46,14 @@ def run(ctx):
     for e in run_campaign(ctx, items):
         for fn in (oracles.c13, oracles.c03, oracles.c07):
             fn(ctx, e)
+    # a completed condition whose stored final state can no longer be restored: whatever the SDK does about the payload, the condition
+    # is not polled again and no new record is sent for it
+    wfc_then = {"nodes": [{"k": "wfc", "polls": 2, "caught": True}, {"k": "wait"}, {"k": "step"}, {"k": "wait"}]}
+    bad = run_campaign(ctx, [(wfc_then, {"seed": 61 + k, "corrupt": {"1": txt}, "max_inv": 10})
+                             for k, txt in enumerate(["{not json", "", "\"unterminated", "[1, 2"])])
+    for e in bad:
+        oracles.c13(ctx, e)
+        oracles.c11(ctx, e)
     from checks import policy_tables
     policy_tables.wait_tables(ctx)
 
